@@ -952,6 +952,8 @@ def install(lib):
   ext('numpy.isfinite')(elementwise('isfinite', 'b'))
   ext('numpy.sign')(elementwise('sign'))
   ext('numpy.ceil')(elementwise('ceil', 'f'))
+  ext('numpy.rint', 'elementwise rounding to the nearest integer (float result)')(elementwise('rint', 'f'))
+  ext('numpy.floor')(elementwise('floor', 'f'))
   def np_conj(cx, a, **kw):
     if isinstance(a, VArr) and cx.st(a).kind in ('f', 'i', 'b'):
       st = cx.st(a)
